@@ -26,7 +26,7 @@ def run(tier, rep):
     c.build_harness()
     reps, threads, procs = (16, 4, 4) if tier == "quick" else (200, 16, 32)
     total = 0
-    for inst, stride in (("names", 1), ("children", 8 if tier == "quick" else 1)):
+    for inst, stride in (("names", 1), ("children", 8 if tier == "quick" else 1), ("attrs", 6 if tier == "quick" else 1)):
         r, cases = pc.run_instance("C05", inst, tier, invariants=["TypeOK", "Exact", "Deterministic"])
         pc.model_violation(rep, r)
         rep.add(states=r.distinct, transitions=r.generated)
@@ -61,8 +61,12 @@ def run(tier, rep):
     # renderer side: trees enumerated by TLC over pools in which the identifier disambiguation has work to do (colliding
     # names, literal name_N / name_attr / text_content forms, gaps in the suffix sequence), each rendered repeatedly
     from . import render_common as rc
-    for pool in ("suffixgap", "suffixlit", "fields"):
-        r, tcases = rc.run_pool("C05", pool, 5 if pool == "suffixgap" else 4, 0, ("add", "text"), invariants=["Unique", "EmitCase"], timeout=300)
+    for pool in ("suffixgap", "suffixlit", "fields", "concat", "depth"):
+        if pool in ("concat", "depth"):
+            # struct names across buckets: a name equal to the qualified name of another, ambiguous one
+            r, tcases = rc.run_pool("C05", pool, 5 if pool == "concat" else 6, 2, ("add",), invariants=["Unique", "EmitCase"], timeout=300)
+        else:
+            r, tcases = rc.run_pool("C05", pool, 5 if pool == "suffixgap" else 4, 0, ("add", "text"), invariants=["Unique", "EmitCase"], timeout=300)
         rep.add(states=r.distinct, transitions=r.generated)
         total, kept = rc.thin(tcases, 4000 if tier == "quick" else 200000)
         mm = os.path.join(c.OUT, "cases", "C05-trees.mm.ndjson")
